@@ -322,6 +322,109 @@ def body_message(sidx: int, kind: int) -> bool:
     return True
 
 
+def _valid_text(vkind, out, head=False):
+    """The wire validators on text (usable on symbolic responses): status line shape per protocol."""
+    if vkind == "gopher":
+        if out == "":
+            return "empty response"
+        if out.startswith("3"):
+            i = out.find("\r\n")
+            if i < 0 or i != len(out) - 2:
+                return "error line not the only line"
+        return None
+    if vkind == "gopherplus":
+        if not (out.startswith("+") or out.startswith("--")):
+            return "no Gopher+ status line"
+        i = out.find("\r\n")
+        if i < 0:
+            return "status line unterminated"
+        code = out[1:i] if out.startswith("+") else out[2:i]
+        if code not in ("-1", "-2", "1", "2") and not code.isdigit():
+            return "bad status %r" % code
+        return None
+    if vkind in ("http", "wap"):
+        if not out.startswith("HTTP/1.0 "):
+            return "no HTTP status line"
+        i = out.find("\r\n\r\n")
+        if i < 0:
+            return "header block unterminated"
+        if not out[9:12].isdigit():
+            return "bad status code"
+        if out.find("HTTP/1.0 ", 9) == i + 4:
+            return "second status line"
+        return None
+    if vkind == "gemini":
+        i = out.find("\r\n")
+        if i < 0 or not (out[0:2].isdigit() and out[2:3] == " "):
+            return "no Gemini status line"
+        if out[0] != "2" and len(out) != i + 2:
+            return "body after a non-success status"
+        return None
+    if vkind == "spartan":
+        i = out.find("\r\n")
+        if i < 0 or not (out[0:1] in ("2", "3", "4", "5") and out[1:2] == " "):
+            return "no Spartan status line"
+        if out[0] != "2" and len(out) != i + 2:
+            return "body after a non-success status"
+        return None
+    return "unknown protocol"
+
+
+E2E_PREFIXES = ["/", "/d/", "/a", "/m|", "/x.zip/", "/1/", "/../", "URL:", "/h.html", "/t.tal"]
+
+
+def body_e2e(kind: int, pre: int, tail: str) -> bool:
+    """A whole request (protocol frame around prefix + symbolic tail) through real detection, the real
+    protocol and the real handler chain over the in-memory site of C01: exactly one well-formed
+    response, nothing escapes, and (C01) no access outside the root."""
+    import traceback
+
+    from harness import dirlib as dl
+    from vk import memvfs as mv
+
+    sel = E2E_PREFIXES[pre] + tail
+    k = KINDS[kind]
+    if k in ("http", "http-head", "wap", "gemini", "spartan"):
+        if " " in sel or "?" in sel or "#" in sel:
+            return True
+    if "\t" in sel or "\r" in sel or "\n" in sel or sel != sel.strip():
+        return True
+    req, tls, vkind, head = _frame(k, sel if sel.startswith("/") else "/" + sel, "")
+    cfg = c01._full_config()
+    vfs = mv.MemVFS(cfg, c01._tree())
+    hat = c01.Hatches()
+    dl.install_dir_env(vfs, 5000, dl.PickleStub())
+    hat.install()
+    hx.silence_logging()
+    traceback.print_exc = lambda *a, **kw: None
+    w = hx.ListWriter()
+    lines = [req, "\r\n"]
+    h = hx.make_request_handler(hx.LineReader(lines), w, cfg, tls=tls)
+    try:
+        try:
+            h.handle()
+        except Exception as e:
+            raise hx.Violation("C03:exception-escaped-handle:%s" % type(e).__name__, "%s selector=%r: %r" % (k, sel, e))
+    finally:
+        hat.uninstall()
+        dl.restore_dir_env()
+    hx.reach()
+    from pygopherd import GopherExceptions
+
+    for (a, kw) in GopherExceptions.log.calls:
+        exc = a[0]
+        hx.require(isinstance(exc, (OSError, GopherExceptions.FileNotFound)), "C03:internal-error-logged:%s" % type(exc).__name__, lambda: "%s selector=%r: %r" % (k, sel, exc))
+    out = w.gettext()
+    err = _valid_text(vkind, out, head)
+    if vkind == "gopher" and out == "":
+        err = None if True else err  # an empty document / menu is a valid (empty) Gopher body
+    hx.require(err is None, "C03:malformed-response:%s" % vkind, lambda: "%s selector=%r: %s | %r" % (k, sel, err, out[:120]))
+    for (op, p) in vfs.log:
+        if op != "stat":
+            hx.require(c01.confined(p), "C01:access-outside-root:e2e:%s" % op.split(":")[0], lambda: "%s selector=%r %s(%r)" % (k, sel, op, p))
+    return True
+
+
 def obligations(tier, seed):
     obs = [
         Ob(id="C03.1-detection-never-raises", body="harness.C02:fn_shapes", kind="fn", engine="RE", twin=False, timeout=900, kwargs={"nwit": 6},
@@ -352,6 +455,16 @@ def obligations(tier, seed):
                           pre=["hidx == %d" % hi, "prefix == %d" % pi, "len(tail) <= %d" % tl, "prop == 3"], timeout=200,
                           desc="%s on %r + symbolic tail over the in-memory site: only FileNotFound / OSError may leave isrequestforme..write" % (hp.rsplit(".", 1)[1], pre),
                           bounds="selector = %r + tail, |tail| <= %d (all characters)" % (pre, tl), functions=[hp + ".*"]))
+    for ki in (0, 1, 4, 6, 7, 8):
+        for pi in range(len(E2E_PREFIXES)):
+            if tier == "quick" and (ki + pi) % 2 == 1:
+                continue
+            obs.append(Ob(id="C03.7-e2e[%s,%r]" % (KINDS[ki], E2E_PREFIXES[pi]), body="harness.C03:body_e2e", sig="kind: int, pre: int, tail: str",
+                          pre=["kind == %d" % ki, "pre == %d" % pi, "len(tail) <= %d" % (1 if tier == "quick" else 2), "all(c in 'a./|%' + chr(0) + chr(92) for c in tail)"], timeout=300 if tier == "quick" else 1200,
+                          desc="whole request `%s` frame with selector %r + symbolic tail through real detection, protocol and handler chain over the in-memory site: one well-formed response, nothing escapes, no access outside the root"
+                               % (KINDS[ki], E2E_PREFIXES[pi]),
+                          bounds="selector = %r + tail, |tail| <= %d over {a . / | %% NUL \\}" % (E2E_PREFIXES[pi], 1 if tier == "quick" else 2),
+                          functions=["server.GopherRequestHandler.handle", "ProtocolMultiplexer.getProtocol", "protocols.*.handle", "HandlerMultiplexer.getHandler", "handlers.*"]))
     for ki in (0, 1, 4, 7, 8):
         obs.append(Ob(id="C03.4-message-numbers[%s]" % KINDS[ki], body="harness.C03:body_message", sig="sidx: int, kind: int",
                       pre=["kind == %d" % ki, "0 <= sidx < %d" % len(MSG_SELS)], timeout=240,
